@@ -899,4 +899,26 @@ func TestOperandLeak(t *testing.T) {
 	}
 }
 
+// TestSpecialDocuments: every hand-written document of the pool meets, once and alone, the operations that
+// judge themselves (the random histories reach a given document x operation pair only now and then).
+func TestSpecialDocuments(t *testing.T) {
+	for doc := 32; doc < nDocs; doc++ {
+		opsFor := []string{"text", "facadereuse"}
+		switch getDoc(doc).kind {
+		case "pdf":
+			opsFor = append(opsFor, "sharedreader", "chunkops")
+		case "html":
+			opsFor = append(opsFor, "htmlnav", "chunkops")
+		default:
+			opsFor = append(opsFor, "chunkops")
+		}
+		for _, op := range opsFor {
+			c := Case{Steps: []Step{{Kind: "extract", Doc: doc, Op: op}, {Kind: "repeat", Doc: doc, Op: op, N: 2}}}
+			if !vr.One(t, "history", c, meta(c), checkCase) {
+				return
+			}
+		}
+	}
+}
+
 var _ = bytes.Equal
